@@ -47,6 +47,7 @@ func init() {
 		frozen(hs(pkgDirect, "VerifC17Stateless", 0, "ReceiveDirectInvoke from havocked package variables (any request history) vs a fresh process: same outcome (relational)", "accepted", "refused", "streaming")),
 		hs(pkgDirect, "VerifC17Validation", 0, "ReceiveDirectInvoke: token validation, header defaults and ranges, symbolic headers and token", "ok", "ok-streaming", "refused"),
 		hs(pkgDirect, "VerifC17Classify", 0, "sendPayloadLimitedResponse: payload of symbolic length/content, symbolic limit, symbolic copy error: forwarded bytes and Complete/Oversized/Truncated", "complete", "oversized", "truncated"),
+		ticks(cclock(hs(pkgDirect, "VerifC17StreamReset", 2, "sendStreamingInvokeResponse with its real copy goroutine, throttler and ticker: a reset arriving while the /response body stalls is acknowledged, the connection is closed, the copy terminates and is classified Truncated; uninterrupted copy is Complete", "reset-during-stall", "complete")), 2),
 		hs(pkgDirect, "VerifC17BucketParams", 0, "NewStreamedResponseWriter arithmetic for every rate/burst in the validated ranges", "writer"),
 		hs(pkgBW, "VerifC17BucketStep", 0, "one step of Bucket.produceTokens/consumeTokens from an arbitrary valid state preserves sent+tokens <= burst+refills (inductive lemma)", "produce", "consume-ok", "consume-refused"),
 		hs(pkgBW, "VerifC17Chunks", 0, "ChunkIterator partitions a buffer of symbolic length (<= 3 chunks) in order", "three-chunks"),
@@ -67,10 +68,13 @@ func maxprog(h *harnessSpec) *harnessSpec { h.maximalProgress = true; return h }
 
 func init() {
 	pkgRC := modulePath + "/lambda/rapidcore"
+	twoCallers := maxprog(cclock(hs(pkgRC, "VerifFullTwoCallersTimeout", 2, "FULL stack: the first invocation stalls, times out and is reset; a second caller arrives in each of 5 phases (at once / runtime working / reset begun / old runtime killed / after the answer); invariant at every scheduling point: nobody is admitted while the reset is in progress", "refused", "served-after-reset")))
+	twoCallers.noNative = true
 	checkRegistry = append(checkRegistry, &checkSpec{
 		id: "C10", level: "other",
 		quick: []*harnessSpec{
 			maxprog(hs(pkgRC, "VerifC10TwoCallers", 2, "two concurrent callers of the real Server.Invoke + a following sequential one; stub sandbox; all schedules with <=2 delays", "refused", "both-served-sequentially")),
+			twoCallers,
 		},
 		thorough: []*harnessSpec{
 			maxprog(hs(pkgRC, "VerifC10TwoCallers", 3, "as quick with <=3 delays", "refused", "both-served-sequentially")),
@@ -146,16 +150,21 @@ func init() {
 	checkRegistry = append(checkRegistry, &checkSpec{id: "C01", level: "other", quick: c01, thorough: c01t, assume: orchAssume, outside: append(orchOutside, "front-end HTTP handler mapping (cmd/aws-lambda-rie) and base64 client context")})
 
 	c02 := []*harnessSpec{
+		orch(pkgRC, "VerifC02ServerScript4", 0, "symbolic 4-op script over Server.Reserve / setReplyStream / SendResponse / SendErrorResponse (in-flight, previous or bogus id) / Release against a ghost model", "refused-id", "refused-dup", "accepted"),
+		orch(pkgRC, "VerifFullIllegal", 2, "FULL stack: case variant of the id (400), init/error after next (403), error for a stale id (400), then the legal response", "case-variant", "illegal", "scenario-done"),
 		orch(pkgRC, "VerifFullStale", 2, "FULL stack: stale-id (400), duplicate (refused) and normal submissions through validator + handlers + Server", "stale", "double", "scenario-done"),
 		srvSeq("VerifC01Sequence2", 2, "Server.Invoke x2, stale id then right id", "wrong-id"),
 	}
-	checkRegistry = append(checkRegistry, &checkSpec{id: "C02", level: "other", quick: c02, thorough: withD(c02, 3, 3000000), assume: orchAssume, outside: orchOutside})
+	c02t := append(withD(c02, 3, 3000000), orch(pkgRC, "VerifC02ServerScript5", 0, "as ServerScript4 with 5 operations", "accepted"))
+	checkRegistry = append(checkRegistry, &checkSpec{id: "C02", level: "other", quick: c02, thorough: c02t, assume: orchAssume, outside: orchOutside})
 
 	c05 := []*harnessSpec{
 		orch(pkgRC, "VerifFullTimeoutThenOK", 2, "FULL stack: runtime stalls, timeout reset, next invocation on fresh processes", "timeout", "respond", "scenario-done"),
 		orch(pkgRC, "VerifFullTimeoutExt", 2, "FULL stack: stall with 1 extension (INVOKE+SHUTDOWN)", "timeout", "scenario-done"),
 		orch(pkgRC, "VerifFullStallThenStall", 2, "FULL stack: two consecutive timeouts", "timeout", "scenario-done"),
 		srvSeq("VerifC01Sequence1", 2, "Server.Invoke against the stub sandbox incl. stall", "timeout"),
+		expiry(orch(pkgRC, "VerifC05ExpiryRaceStub", 3, "stub sandbox, the function-timeout timer may fire at ANY point of two healthy invocations (response-versus-expiry): each ends with its response or the timeout outcome and never disturbs the next one", "expiry-won", "response-won")),
+		orch(pkgRC, "VerifFullRace2", 2, "FULL stack, timer may fire at any point of two healthy invocations after init", "expiry-won", "respond", "scenario-done"),
 	}
 	checkRegistry = append(checkRegistry, &checkSpec{id: "C05", level: "other", quick: c05, thorough: withD(c05, 3, 3000000), assume: orchAssume, outside: append(orchOutside, "wall-clock bound of the answer (logical time only)", "stalls during extension registration / runtime init (see C03 harness for the barrier)")})
 
@@ -167,6 +176,9 @@ func init() {
 	}
 	checkRegistry = append(checkRegistry, &checkSpec{id: "C06", level: "other", quick: c06, thorough: withD(c06, 3, 3000000), assume: orchAssume, outside: append(orchOutside, "extension crashes / init errors (to be added)", "exit codes vs signals (the fake supervisor reports status 1)")})
 }
+
+// expiry: timers are not restricted to quiescence (the harness switches them with verifRaceTimers)
+func expiry(h *harnessSpec) *harnessSpec { h.maximalProgress = false; return h }
 
 func findCheck(id string) *checkSpec {
 	for _, c := range checkRegistry {
